@@ -561,7 +561,7 @@ func osvExtra(v *claircore.Vulnerability) string {
 func runOsv(r *hx.Run, g *gen, cfg hx.Config) {
 	osvWitnesses(r)
 	ecos := []string{"PyPI", "Go", "npm", "Maven", "RubyGems", "crates.io", "Packagist", "NuGet"}
-	for it, n := 0, cfg.N(3000, 20000); it < n && !r.Stop(); it++ {
+	for it, n := 0, cfg.N(6000, 40000); it < n && !r.Stop(); it++ {
 		eco := ecos[it%len(ecos)]
 		repoName := strings.ToLower(eco)
 		p := osv.ParserForC14(repoName)
